@@ -515,6 +515,11 @@ def apply_rewrite_all(piece, src, start, end, sections):
             continue
         spec = k[len('rewrite-all '):].strip()
         flags = 0
+        optional = False
+        if spec.endswith(' optional'):
+            # an equivalent spelling that the code may or may not use (normalised to the form the contract is written for)
+            optional = True
+            spec = spec[:-9].strip()
         if spec.endswith(' dotall'):
             flags = re.S
             spec = spec[:-7].strip()
@@ -524,6 +529,8 @@ def apply_rewrite_all(piece, src, start, end, sections):
         rx = re.compile(m.group(1), flags)
         ms = list(rx.finditer(src.text, start, end))
         if not ms:
+            if optional:
+                continue
             raise LostAnchor('rewrite-all /%s/: no match' % rx.pattern)
         for mm in ms:
             piece.replace(mm.start(), mm.end(), mm.expand(v.strip('\n')), 'M3:rewrite /%s/' % rx.pattern)
